@@ -20,8 +20,8 @@ mkdir -p "$HERE/harness/target"
   cargo build --profile verif >"$LOG" 2>&1
 ) 9>"$HERE/harness/target/.build.lock"
 rc=$?
-if [ $rc -eq 0 ] && [ "$ID" = C19 ]; then
-  # C19 drives the real command line tool: build it from /repo's working tree too (no hook needed)
+if [ $rc -eq 0 ] && { [ "$ID" = C19 ] || [ "$ID" = C09 ]; }; then
+  # C19 (and one class of C09) drives the real command line tool: build it from /repo's working tree too (no hook needed)
   (
     flock 9
     cd /repo && cargo build -p gamedig_cli --offline --target-dir "$HERE/harness/target/cli" >"$LOG" 2>&1
